@@ -241,7 +241,12 @@ def Mon.step (m : Mon) (w : World) (l : Label) (w' : World) : Mon × List Vio :=
          (if after != want then v "C09" "childCount" [] s!"event {e} under instance {i}: {after} ≠ {want}" else []) ++ late i
        | _ => [])
     (m, vs)
-  | .peRecTrip _ b e => ({ m with tripped := m.tripped ++ [(b, e)], ended := m.ended ++ [(b, e)] }, [])
+  | .peRecTrip _ b e =>
+    -- a trip the model does not compute (no handler of the bus recurs in the event's ancestry) is not finding F2:
+    -- the accepted event is dropped before any of its handlers sees it
+    if recursionTrips w b e then ({ m with tripped := m.tripped ++ [(b, e)], ended := m.ended ++ [(b, e)] }, [])
+    else ({ m with ended := m.ended ++ [(b, e)] },
+          v "C01" "spuriousRecursionTrip" [] s!"bus {b}: the recursion guard raised for event {e} although none of its handlers recurs in the event's ancestry; no handler of the accepted event runs")
   | .peAbort p b e =>
     (match p with
      | .rl _ => ({ m with dropped := m.dropped ++ [(b, e)], ended := m.ended ++ [(b, e)] }, [])   -- run loop cancelled by stop()
@@ -370,6 +375,13 @@ def Mon.step (m : Mon) (w : World) (l : Label) (w' : World) : Mon × List Vio :=
     | _ => (m, [])
   | .rlCreate b => ({ m with stopped := m.stopped.filter (· != b), rlCancelledBy := m.rlCancelledBy.filter (· != b) }, [])
   | .cancelRl b => ({ m with rlCancelledBy := m.rlCancelledBy ++ [b] }, [])
+  | .take (.inst i) b e =>
+    -- C05: the inline drain of an awaiting handler stops with the completion of the awaited event
+    (m, match awaitedOf (w.inst i).st with
+        | some c => if (w.ev c).signal then
+            v "C05" "drainAfterCompletion" [] s!"instance {i} takes event {e} off bus {b} inline although the event {c} it awaits is already complete"
+          else []
+        | none => [])
   | .rlDropExit b | .rlCancelled b =>
     (match (w.bus b).rl with
      | .took e => ({ m with dropped := m.dropped ++ [(b, e)] }, [])
@@ -441,13 +453,21 @@ def Mon.step (m : Mon) (w : World) (l : Label) (w' : World) : Mon × List Vio :=
   let changed := snaps0.filterMap fun (e, rs) =>
     if (w'.ev e).results == rs then none else
       some ({ prop := "C08", clause := "changed",
+              -- F4: an event on several buses was declared complete (or an await on it returned) after the first bus; a later
+              -- bus adds results, or finishes results that were in progress when the await returned
               sigs := (if (w'.ev e).path.length > 1 &&
-                         (w'.ev e).results.any (fun r => !rs.any (fun x => x.bus == r.bus && x.hid == r.hid)) then ["F4"] else []),
+                         ((w'.ev e).results.any (fun r => !rs.any (fun x => x.bus == r.bus && x.hid == r.hid)) ||
+                          rs.any (fun x => !x.terminal)) then ["F4"] else []),
               detail := s!"event {e} changed after it was complete" } : Vio)
   -- a changed event is watched again from its next completion on
   let snaps := snaps0.filter fun (e, rs) => (w'.ev e).results == rs
+  -- observed complete: status completed with the completion signalled, or an await on it has just returned on the signal
+  let awaited : Option EId := match l with
+    | .awaitEnd _ c => if (w.ev c).signal then some c else none
+    | .xAwaitEnd e => some e
+    | _ => none
   let fresh := (events w').filterMap fun e =>
-    if (w'.ev e).signal && (w'.ev e).status == .completed && !snaps.any (·.1 == e) && some e != redispatched
+    if (((w'.ev e).signal && (w'.ev e).status == .completed) || awaited == some e) && !snaps.any (·.1 == e) && some e != redispatched
     then some (e, (w'.ev e).results) else none
   ({ m with snaps := snaps ++ fresh }, vs ++ changed)
 
